@@ -794,7 +794,7 @@ class ThresholdCounter:
         except KeyError:
             return default
 
-    def update(self, iterable, **kwargs):
+    def update(self, iterable=None, **kwargs):
         """Like dict.update() but add counts instead of replacing them, used
         to add multiple items in one call.
 
@@ -802,8 +802,8 @@ class ThresholdCounter:
         to integer counts.
         """
         if iterable is not None:
-            if callable(getattr(iterable, 'iteritems', None)):
-                for key, count in iterable.iteritems():
+            if callable(getattr(iterable, 'items', None)):
+                for key, count in iterable.items():
                     for i in range(count):
                         self.add(key)
             else:
